@@ -83,6 +83,30 @@ def rnp_known_region(draw):
     return {"alg": "rnp", "values": values, "numbins": k, "pres": "list", "nseed": 0, "known_region": True}
 
 
+@st.composite
+def cheap_volume_cases(draw):
+    """The four cheap heuristics get tens of thousands of cases: a defect that needs a particular shape of 7+ items (for example
+    multifit returning one bin too many because its last packing step disagrees with its feasibility test) shows on well under 0.1 %
+    of inputs."""
+    alg = draw(st.sampled_from(["multifit", "multifit", "multifit", "greedy", "kk", "roundrobin"]))
+    k = draw(st.sampled_from([2, 2, 3, 3, 4, 5, 6]))
+    n = draw(st.integers(5, 16))
+    style = draw(st.sampled_from(["uniform-20", "uniform-50", "uniform-200", "big+middle+small", "big+middle+small"]))
+    seed = draw(st.integers(0, 2 ** 40))
+    if style == "big+middle+small":
+        nb, nm = 1 + seed % 2, 2 + (seed >> 3) % 3
+        values = S.splitmix(seed, nb, 15, 45) + S.splitmix(seed + 1, nm, 8, 25) + S.splitmix(seed + 2, max(1, n - nb - nm), 1, 8)
+        keys = S.splitmix(seed + 3, len(values), 0, 2 ** 30)
+        values = [values[i] for i in sorted(range(len(values)), key=lambda i: (keys[i], i))]
+    else:
+        values = S.splitmix(seed, n, 0 if seed % 5 == 0 else 1, int(style.split("-")[1]))
+    case = {"alg": alg, "values": values, "numbins": k, "pres": draw(st.sampled_from(["list", "list", "list", "dict-str", "array"])),
+            "nseed": draw(st.integers(0, 5)), "profile": "volume-" + style}
+    if alg == "multifit":
+        case["opts"] = {"iterations": draw(st.sampled_from([1, 2, 3, 5, 10, 10, 10, 12]))}
+    return case
+
+
 def legs(tier):
     rule = ("hypothesis: (algorithm, profile-mixed non-negative ints, numbins 1..6, one of 5 presentations, options); "
             "non-trivial = >=2 items, >=2 bins and at least one of zero-valued item / repeated value / numbins > "
@@ -92,6 +116,10 @@ def legs(tier):
             corpus=common.load_corpus(PROP), valid=cases.valid_partition_case, shards=1),
         Leg("random", evaluate, rule, strategy=cases.partition_cases(), n_quick=6000, n_thorough=120000,
             valid=cases.valid_partition_case, floor=0.3),
+        Leg("cheap-heuristics-volume", evaluate,
+            "hypothesis: multifit (iterations 1..12) / greedy / kk / roundrobin on 5-16 evenly spread items (uniform, or one or two big + a few "
+            "middle + several small), 2-6 bins: the cheap algorithms get tens of thousands of cases; same non-triviality rule",
+            strategy=cheap_volume_cases(), n_quick=24000, n_thorough=400000, valid=cases.valid_partition_case, floor=0.1),
         Leg("exhaustive-small", evaluate,
             "every multiset of <=5 values from 0..3 x numbins 1..6 x every algorithm (quick: 1/12 slice; ILP a third "
             "per thorough run); same non-triviality rule",
